@@ -43,6 +43,38 @@ Print Assumptions C01_editing_primitives_total.
    candidate list C07_range_inside_current_buffer_every_history: the range a choice records lies
    inside the current buffer, so push_selection's assert cannot fire either) *)
 
+(* ---- the phrase selector is total on every selector the invariant allows ---- *)
+(* (EditorInv: in every reachable state with a phrase list open the selector satisfies ps_ok - range
+   non-empty, inside the buffer, syllables only, hanging on a syllable the list was opened at.)
+   Opening / re-opening the list (init), Down on the last page (next: the cycle through the ranges),
+   list next / prev / last: no slice index out of range, no underflow, and every loop ends within its
+   fuel - the termination of `next` is the argument the pinned code lacked. *)
+Section Selector.
+Context {D : Type} (dops : dict_ops D).
+Variable dict_ok : D -> Prop.
+Hypothesis ok_lookup : forall d f, dict_ok d -> do_lookup dops d f [] = [].
+
+Theorem C01_selector_init_total : forall d p cur, cur < clen (ps_com p) -> BreakPoints.syl_at (ps_com p) cur ->
+  exists p', ps_init dops d p cur = Ok p'.
+Proof. exact (ps_init_total dops). Qed.
+
+Theorem C01_selector_next_terminates : forall d p, ps_ok p -> exists p', ps_next dops d p = Ok p'.
+Proof. exact (ps_next_total dops). Qed.
+
+Theorem C01_selector_moves_total : forall d p, ps_ok p -> dict_ok d ->
+  (exists r, ps_next_selection_point dops d p = Ok r) /\ (exists r, ps_prev_selection_point dops d p = Ok r) /\
+  (exists p', ps_jump_last dops d (S (S (clen (ps_com p)))) p = Ok p').
+Proof.
+  intros d p Hok Hd. pose proof Hok as [Hlt Hle [_ (O1 & _) _]]. repeat split.
+  - apply ps_next_point_total; lia.
+  - apply ps_prev_point_total; [lia | lia | destruct (ps_fwd p); lia].
+  - apply (ps_jump_last_total dops dict_ok ok_lookup); [exact Hok | exact Hd | lia].
+Qed.
+End Selector.
+Print Assumptions C01_selector_init_total.
+Print Assumptions C01_selector_next_terminates.
+Print Assumptions C01_selector_moves_total.
+
 (* ---- the pinned tree ---- *)
 (* (1) English mode + full-width form + a key without a full-width form: unwrap() on None *)
 Theorem C01_english_fullwidth_nonprintable_pinned_refuted :
